@@ -45,7 +45,7 @@ def run(chk):
         "verification message and validity verdict recomputed by TLC; wrong-length shares refused. (b) the real Prio2 for lengths %s: honest batches accepted with exact "
         "sums and canonical codecs of shares/states/verifier shares; non-binary vectors and altered share/proof elements rejected under the k-key rule (k from the spec's "
         "2n/p bound); choose_eval_at on scripted streams that begin with 0-5 roots of unity, judged by TLC through squaring-chain witnesses."
-        % (6 if thorough else 3, "1..65535 (16 lengths)" if thorough else "1,2,3,4,7,8,9,255,256,257"))
+        % (6 if thorough else 2, "1..65535 (16 lengths)" if thorough else "1,2,3,4,7,8,9,255,256,257"))
     chk.assumptions = ["on the 32-bit field values are opaque to TLC except through BigNat witnesses; rejection of bad reports is judged under the k-key rule (6 keys)"]
 
 
